@@ -28,6 +28,8 @@ type PDF struct {
 	LastXref int64
 	// LastStreamLen is the data length of the most recently written stream.
 	LastStreamLen int
+	// LengthOverride, when non-empty, is written as the /Length value of the next stream.
+	LengthOverride string
 }
 
 func NewPDF(eol string) *PDF {
@@ -54,6 +56,9 @@ func (p *PDF) Stream(num int, dict string, data []byte, lengthRef int) int64 {
 	l := fmt.Sprintf("%d", len(data))
 	if lengthRef > 0 {
 		l = fmt.Sprintf("%d 0 R", lengthRef)
+	}
+	if p.LengthOverride != "" {
+		l = p.LengthOverride
 	}
 	// the EOL after `stream` must be LF or CRLF (never a lone CR)
 	seol := p.EOL
